@@ -573,7 +573,7 @@ func ruleClassGate(c *report.Ctx) {
 				if p.ClassifyReturn(r, pr) == an.RetSuccess {
 					continue
 				}
-				ev := r.Results[len(r.Results)-1]
+				ev := an.RetOperand(r, len(r.Results)-1)
 				if u, ok := ev.(*ssa.UnOp); ok && u.Op == token.MUL && u.X == sentinel {
 					n++
 					c.OK(sk(pps)+":return-sentinel", "returns ErrUnsupportedScript", posOf(c, r))
